@@ -68,15 +68,24 @@ var (
 	faultKinds = []string{"upstream_error", "upstream_timeout", "upstream_servfail", "upstream_slow"}
 )
 
+// wildWeighted repeats the patterns by weight: "*.test" covers nearly every
+// name of the alphabet and would otherwise decide most queries.
+var wildWeighted = []string{"*.test", "*.a.test", "*.a.test", "*.a.test", "*.x.a.test", "*.x.a.test", "*.x.a.test", "*.b.test", "*.b.test", "*.y.x.a.test"}
+
 func genPattern(t *rapid.T) string {
-	if rapid.IntRange(0, 9).Draw(t, "pat_wild") < 4 {
-		return rapid.SampledFrom(wildPats).Draw(t, "wild")
+	if rapid.IntRange(0, 9).Draw(t, "pat_wild") < 3 {
+		return rapid.SampledFrom(wildWeighted).Draw(t, "wild")
 	}
 	return rapid.SampledFrom(exactNames).Draw(t, "exact")
 }
 
 func genAnswer(t *rapid.T, pat string) string {
-	switch k := rapid.IntRange(0, 99).Draw(t, "ans_kind"); {
+	k := rapid.IntRange(0, 99).Draw(t, "ans_kind")
+	if isWild(pat) && k >= 36 && k < 79 && rapid.Bool().Draw(t, "wild_addr") {
+		// Wildcards mostly carry addresses.
+		k = k % 36
+	}
+	switch {
 	case k < 22:
 		return rapid.SampledFrom(addrs4).Draw(t, "v4")
 	case k < 36:
@@ -183,6 +192,13 @@ func flipCase(t *rapid.T, s string) string {
 	return string(b)
 }
 
+func genQName(t *rapid.T, all []string) string {
+	if rapid.IntRange(0, 9).Draw(t, "q_exact") < 4 {
+		return rapid.SampledFrom(exactNames).Draw(t, "qname_exact")
+	}
+	return rapid.SampledFrom(all).Draw(t, "qname")
+}
+
 // Gen draws a scenario.
 func Gen(t *rapid.T, tier string) any {
 	sc := &Scenario{}
@@ -198,7 +214,7 @@ func Gen(t *rapid.T, tier string) any {
 		switch k := rapid.IntRange(0, 99).Draw(t, "kind"); {
 		case k < 72:
 			op = Op{K: "query",
-				Name:  flipCase(t, rapid.SampledFrom(allNames).Draw(t, "qname")),
+				Name:  flipCase(t, genQName(t, allNames)),
 				Qt:    rapid.SampledFrom(qtypes).Draw(t, "qtype"),
 				Proto: rapid.SampledFrom(protos).Draw(t, "proto"),
 			}
@@ -375,6 +391,11 @@ func rrKeys(rrs []dns.RR) []string {
 
 func upstreamAnswer(name string, qtype uint16) *dns.Msg {
 	return env.DefaultAnswer((&dnsnode.Query{Name: name, Qtype: qtype}).NewReq())
+}
+
+// sameRecords reports whether got is, TTLs aside, the non-empty record list want.
+func sameRecords(got, want []dns.RR) bool {
+	return len(got) > 0 && strings.Join(rrKeys(got), "\n") == strings.Join(rrKeys(want), "\n")
 }
 
 func rrAddr(rr dns.RR) (ip netip.Addr, ok bool) {
@@ -593,6 +614,15 @@ func (r *runner) checkUpstreamLeg(q *qctx, name, class string, rest []dns.RR) er
 
 func (r *runner) checkSpecified(q *qctx) error {
 	rep, op, ex, m := q.rep, q.op, q.ex, q.rep.Msg
+	if ex.wildOtherExc && m != nil {
+		_, after := split(m.Answer)
+		emptyLocal := len(rep.Exchanges) == 0 && m.Rcode == dns.RcodeSuccess && len(after) == 0
+		fwdFinal := ex.kind == oLocal && len(ex.chain) > 0 &&
+			((len(rep.Exchanges) > 0 && lower(rep.Exchanges[0].Name) == ex.final) || sameRecords(after, upstreamAnswer(ex.final, op.Qt).Answer))
+		if emptyLocal || fwdFinal {
+			return q.bad("wildcard-entry-lost-behind-exception", "the deciding wildcard pattern has a %s value or exception (%s) and, separately, the pass-through exception of the other family; the request is treated as if the pattern had nothing for %s", dns.Type(op.Qt), ex.why, dns.Type(op.Qt))
+		}
+	}
 	switch ex.kind {
 	case oNotMatched:
 		if m != nil && !q.exchangeFailed() {
@@ -614,8 +644,15 @@ func (r *runner) checkSpecified(q *qctx) error {
 		return r.checkUpstreamLeg(q, lower(op.Name), "exception-not-passed-through", rest)
 	case oCnameUp:
 		// S5.
-		if ex.excHop && len(rep.Exchanges) > 0 && lower(rep.Exchanges[0].Name) == lower(op.Name) && lower(op.Name) != ex.final {
-			return q.bad("chain-exception-drops-cname", "the CNAME chain %v ends at %s, whose entry is a pass-through exception, so %s has to be resolved upstream and returned under the CNAME; instead the whole request was passed upstream under the original name and the CNAME entries were ignored", ex.chain, ex.final, ex.final)
+		if ex.excHop && lower(op.Name) != ex.final {
+			passedOrig := len(rep.Exchanges) > 0 && lower(rep.Exchanges[0].Name) == lower(op.Name)
+			if len(rep.Exchanges) == 0 && m != nil {
+				passedOrig = sameRecords(m.Answer, upstreamAnswer(lower(op.Name), op.Qt).Answer) ||
+					(r.cache && r.cached[lower(op.Name)+"|"+dns.Type(op.Qt).String()]["servfail"] && m.Rcode == dns.RcodeServerFailure && len(m.Answer) == 0)
+			}
+			if passedOrig {
+				return q.bad("chain-exception-drops-cname", "the CNAME chain %v ends at %s, whose entry is a pass-through exception, so %s has to be resolved upstream and returned under the CNAME; instead the whole request was passed upstream under the original name and the CNAME entries were ignored", ex.chain, ex.final, ex.final)
+			}
 		}
 		var rest []dns.RR
 		if m != nil && !(q.exchangeFailed() && len(m.Answer) == 0) {
@@ -645,9 +682,6 @@ func (r *runner) checkSpecified(q *qctx) error {
 		} else if cn, _ := split(m.Answer); len(cn) > 0 {
 			return q.bad("precedence", "the answer carries CNAME %s although no CNAME entry applies", cn[0].Target)
 		}
-		if len(rest) == 0 && ex.wildOtherExc {
-			return q.bad("wildcard-value-lost-behind-exception", "the deciding wildcard pattern has the %s value(s) %v and, separately, the pass-through exception of the other family; the documented 'A record with AAAA exception' answer carries the value, this answer is empty", dns.Type(op.Qt), ex.vals)
-		}
 		if len(rest) == 0 {
 			return q.bad("local-answer-missing", "want %s records with %v", dns.Type(op.Qt), ex.vals)
 		}
@@ -673,10 +707,18 @@ func (r *runner) checkSpecified(q *qctx) error {
 		return nil
 	case oEmpty:
 		// S6.
-		if len(rep.Exchanges) != 0 {
-			if len(ex.chain) > 0 {
-				return q.bad("cname-final-no-value-forwarded", "the CNAME chain %v ends at %s, which the table covers without a %s value: the answer has to be the CNAME alone, but the upstream was asked", ex.chain, ex.final, dns.Type(op.Qt))
+		if len(ex.chain) > 0 {
+			forwarded := len(rep.Exchanges) != 0
+			if !forwarded && m != nil {
+				_, after := split(m.Answer)
+				forwarded = sameRecords(after, upstreamAnswer(ex.final, op.Qt).Answer) ||
+					(r.cache && r.cached[ex.final+"|"+dns.Type(op.Qt).String()]["servfail"] && m.Rcode == dns.RcodeServerFailure && len(after) == 0)
 			}
+			if forwarded {
+				return q.bad("cname-final-no-value-forwarded", "the CNAME chain %v ends at %s, which the table covers without a %s value: the answer has to be the CNAME alone, but the canonical name was resolved upstream", ex.chain, ex.final, dns.Type(op.Qt))
+			}
+		}
+		if len(rep.Exchanges) != 0 {
 			return q.bad("matched-no-value-forwarded", "%s is covered by the table without a %s value: the answer has to be empty, but the upstream was asked", ex.final, dns.Type(op.Qt))
 		}
 		if m == nil {
@@ -1056,7 +1098,7 @@ var Prop = &kernel.Property{
 	FaultKinds: []string{"upstream_error", "upstream_timeout", "upstream_servfail", "upstream_slow", "live_table_change"},
 	ProbeNames: []string{oNotMatched, oPassExc, oLocal, oEmpty, oCnameUp, oUnspecified, "matched_query",
 		"cname_beats_address", "exact_shadows_wildcard", "specific_wildcard_wins", "wildcard_cname", "wildcard_address", "self_reference", "family_exception",
-		"wildcard_value_with_other_family_exception", "cycle", "cycle_through_qname", "cycle_not_through_qname", "chain_2plus", "chain_4plus", "local_via_chain", "empty_via_chain", "exception_at_later_hop",
+		"wildcard_with_other_family_exception", "cycle", "cycle_through_qname", "cycle_not_through_qname", "chain_2plus", "chain_4plus", "local_via_chain", "empty_via_chain", "exception_at_later_hop",
 		"unspecified_multi_target", "unspecified_wildcard_mixed_kinds", "unspecified_exc_and_value", "unspecified_cross_family",
 		"fault_on_cname_leg", "upstream_failed_leg", "served_from_cache", "duplicate_entries",
 		"table_add", "table_delete", "table_update", "delete_missing", "update_missing", "delete_removed_duplicates"},
